@@ -96,6 +96,9 @@ RULES = {
     'C16_retype_ret_comp': dict(
         kind='C16', pattern='global_values: &GlobalValues, ) -> Felt {', replace='global_values: &GlobalValues, ) -> crate::coeff::Lin {',
         why='coefficient-typing contract of property C16', assumes='none'),
+    'C16_retype_ret_oods_dyn': dict(
+        kind='C16', pattern='dynamic_params: &DynamicParams, ) -> Felt {', replace='dynamic_params: &DynamicParams, ) -> crate::coeff::Lin {',
+        why='coefficient-typing contract of property C16 (dynamic layout: the DEEP evaluator has one more parameter)', assumes='none'),
     'C16_retype_ret_oods': dict(
         kind='C16', pattern='trace_generator: &Felt, ) -> Felt {', replace='trace_generator: &Felt, ) -> crate::coeff::Lin {',
         why='coefficient-typing contract of property C16', assumes='none'),
